@@ -1,3 +1,4 @@
+#![recursion_limit = "512"]
 //! verif_rt: deterministic-simulation runtime for typeshare-cli.
 //!
 //! The hooked code in /repo (all behind `cfg(typeshare_verif)`) refers to this crate for its
